@@ -155,7 +155,7 @@ impl Archetypes {
         let removed_component_id = info.id();
 
         for arch_idx in info.member_of.drain(..) {
-            let mut arch = self.archetypes.remove(arch_idx.0 as usize);
+            let arch = self.archetypes.remove(arch_idx.0 as usize);
 
             for mut ptr in arch.refresh_listeners.iter().copied() {
                 unsafe { ptr.as_info_mut().handler_mut().remove_archetype(&arch) };
@@ -175,27 +175,13 @@ impl Archetypes {
                 f(entity_id);
             }
 
-            // Remove all references to the removed archetype.
+        }
 
-            for (comp_idx, arch_idx) in mem::take(&mut arch.insert_components) {
-                let other_arch = unsafe {
-                    self.archetypes
-                        .get_mut(arch_idx.0 as usize)
-                        .unwrap_unchecked()
-                };
-
-                other_arch.remove_components.remove(&comp_idx);
-            }
-
-            for (comp_idx, arch_idx) in mem::take(&mut arch.remove_components) {
-                let other_arch = unsafe {
-                    self.archetypes
-                        .get_mut(arch_idx.0 as usize)
-                        .unwrap_unchecked()
-                };
-
-                other_arch.insert_components.remove(&comp_idx);
-            }
+        // Remove all references to the removed archetypes. Every transition between a
+        // surviving archetype and a removed one is labelled with the removed component.
+        for (_, arch) in &mut self.archetypes {
+            arch.insert_components.remove(&removed_component_id.index());
+            arch.remove_components.remove(&removed_component_id.index());
         }
     }
 
